@@ -1,4 +1,5 @@
 import sys
+# unmarshalList *[]T: null keeps the previous slice
 p=sys.argv[1]+'/marshal.go'; s=open(p).read()
 old="""			if rv.IsNil() {
 				return nil
